@@ -6,8 +6,10 @@ CONSTANTS
   TamperMode = "all"
   TamperVariants = {0, 1, 2, 3, 4, 5}
   TamperAllVariants = {0, 1, 2, 3, 4, 5}
+  HoldMode = "all"
+  Aliased = {}
   HelperKeyMax = 300
   HelperTexts = {0, 1, 55, 64, 150}
-INVARIANTS TypeOK Integrity Fingerprint RoundTrip OtherKeyRejected ProtectedFlipRejected CoveredFlipRejected EncodedFrame
+INVARIANTS TypeOK Integrity Fingerprint RoundTrip OtherKeyRejected ProtectedFlipRejected CoveredFlipRejected EncodedFrame ValueStable
 VIEW View
 CHECK_DEADLOCK FALSE
